@@ -19,6 +19,7 @@ TRUSTED = ["numpy long double trigonometry",
 ASSUMPTIONS = ["comparisons are on-sky separations; longitude intervals are closed ([0,360], [-180,180])",
                "tolerances from the statement: 1e-5 deg for the tabulated transforms and rotate, 1e-9 deg for SDSS and unit vectors"]
 THOROUGH_ROUNDS = 8      # the thorough tier runs the generator over this many derived seeds
+CASE_TIMEOUT = 600
 REQUIRED = {"quick": {"C09.euler": 4000, "C09.sdss": 1000, "C09.xyz": 700, "C09.rotate": 350, "C09.shiftlon": 2000,
                       "C09.relations": 6000},
             "thorough": {"C09.euler": 60000, "C09.sdss": 15000, "C09.xyz": 10000, "C09.rotate": 5000, "C09.shiftlon": 30000,
@@ -35,7 +36,7 @@ def cases(seed, tier):
     for i in range(n):
         yield {"family": FAMS[i % 8], "sub": int(rng.integers(0, 2**31))}
     for i in range(2 if tier == "quick" else 10):
-        yield {"family": "big", "sub": int(rng.integers(0, 2**31)), "first": i == 0, "cap": 2 ** 21 + 1 if tier == "quick" else None}
+        yield {"family": "big", "sub": int(rng.integers(0, 2**31)), "first": i == 0, "cap": 2 ** 21 + 1 if tier == "quick" else 5 * 10 ** 6 + 3}
 
 
 def ring(rng, n, pole_sign=None):
